@@ -290,6 +290,23 @@ UNIT = {
          'loop_specs': {0: {'iter_name': 'it', 'invariant': [('scope_not_touched', 'scope.contexts@ == old(scope).contexts@'),
                                           ('pairs', 'it.seq().len() == bindings@.len() && forall |j: int| 0 <= j < it.seq().len() ==> *(#[trigger] it.seq()[j]) == bindings@[j]', ['C04']),
                                           ('formulas_over_the_callers_stack', 'params_ctx.0@ == bind_formulas(bindings@, old(scope).contexts@, it.index@ as int)', ['C04', 'C13'])]}}},
+        {'kind': 'closure', 'src': M, 'path': 'fn build_relation_evaluator', 'name': 'boxed_relation', 'key': 'purity::model::build_relation_evaluator', 'props': P, 'auto_props': A, 'loops': 2, 'ret': 'r',
+         'lead_params': ['scope: &mut Scope'], 'extra_params': ['rows: &Vec<Vec<(Name, Evaluator)>>'],
+         'rewrites': [('RX', 'R8e', r'\bevaluator\(scope\)', 'evaluator.call(scope)', 1),
+                      ('RX', 'R11', r'FeelContext::default\(\)', 'feel_context_default()', None),
+                      ('RX', 'R14', r'let mut results = vec!\[\];', 'let mut results: Vec<Value> = vec![];', 1),
+                      ('RX', 'R2v', r'for row in &rows \{', 'for row in rows.iter() {', 1),
+                      ('RX', 'R2v', r'for \(name, evaluator\) in row \{', 'for (name, evaluator) in row.iter() {', 1)],
+         'ensures': [('caller_scope_untouched', STACK_SAME, ['C13', 'C04']),
+                     ('one_context_per_row_every_cell_over_the_callers_stack', 'r is List && r->List_0.0@.len() == rows@.len() && forall |j: int| 0 <= j < rows@.len() ==> (#[trigger] r->List_0.0@[j]) is Context '
+                      '&& r->List_0.0@[j]->Context_0.0@ == bind_formulas(rows@[j]@, old(scope).contexts@, rows@[j]@.len() as int)', ['C04', 'C13'])],
+         'loop_specs': {0: {'iter_name': 'itr', 'invariant': [('scope_not_touched', 'scope.contexts@ == old(scope).contexts@', ['C13', 'C04']),
+                                          ('rows', 'itr.seq().len() == rows@.len() && forall |j: int| 0 <= j < itr.seq().len() ==> *(#[trigger] itr.seq()[j]) == rows@[j]', ['C04']),
+                                          ('rows_so_far', 'results@.len() == itr.index@ && forall |j: int| 0 <= j < itr.index@ ==> (#[trigger] results@[j]) is Context && results@[j]->Context_0.0@ == bind_formulas(rows@[j]@, old(scope).contexts@, rows@[j]@.len() as int)', ['C04', 'C13'])]},
+                        1: {'iter_name': 'itc', 'invariant': [('scope_not_touched', 'scope.contexts@ == old(scope).contexts@', ['C13', 'C04']),
+                                          ('cells', 'itc.seq().len() == row@.len() && forall |j: int| 0 <= j < itc.seq().len() ==> *(#[trigger] itc.seq()[j]) == row@[j]', ['C04']),
+                                          ('the_row', '*row == rows@[itr.index@ as int]', ['C04']),
+                                          ('cells_over_the_callers_stack', 'evaluated_context.0@ == bind_formulas(row@, old(scope).contexts@, itc.index@ as int)', ['C04', 'C13'])]}}},
         {'kind': 'fn', 'src': B, 'path': 'fn eval_function_definition', 'key': 'purity::eval_function_definition', 'props': PE, 'auto_props': AE, 'loops': 0, 'ret': 'r',
          'sig_rewrite': [(r'^(\s*)fn ', r'\1pub fn '), (r'scope: &Scope', 'scope: &mut Scope')],
          'rewrites': [('R3',), ('RX', 'R8e', r'body\.evaluate\(scope\)', 'function_body_evaluate(body, scope)', 1)],
